@@ -26,7 +26,7 @@ EXTRA_REQUIRE = "Set Printing Width 1000000."
 RULE = ("operand pairs from a 48-element universe (small and huge ints up to 10^400, ratios with small and "
         "huge parts, decimals incl. signed zeros, floats incl. +-0.0, +-inf, nan, 2^53, 1e300) x "
         "{+ - * / quot rem mod, < <= > >= =} and single operands x {inc dec inc' dec' - abs / zero?}, "
-        "plus (operator/<name> a b) for the 12 arithmetic/comparison names the optimizer rewrites; every "
+        "three-operand calls of + - * / (variadic arity), plus (operator/<name> a b) for the 12 arithmetic/comparison names the optimizer rewrites; every "
         "case is evaluated along four call paths (literal call form, apply, inlining disabled, precompiled "
         "fn on values). thorough: all 48x48 pairs for every binary operation; quick: a seeded sample of "
         "the pairs, all unary cases. Random operands up to 2^600 with random signs and denominators. "
@@ -42,7 +42,8 @@ TRUSTED = ["CPython int is arbitrary-precision and fractions.Fraction is exact, 
            "Python's operator module functions mean what their documentation says (Spec.operator_doc)",
            "harness/tr/tr_numbers.py (numbers.py handlers, core.lpy defn bodies, optimizer dictionaries -> Gallina)"]
 ASSUMPTIONS = ["operands are int, Fraction (reduced, denominator > 1), Decimal or float; bool is outside",
-               "core's variadic comparison functions are modelled by hand as a left-to-right chain",
+               "core's variadic comparison functions are modelled by hand as a left-to-right chain, and the "
+               "[x y & args] arity of + - * / as a left fold of the (regenerated) two-operand arity",
                "exceptions are observed by class: ZeroDivisionError / other ArithmeticError / ValueError / TypeError"]
 FINDINGS = {}
 EXHAUSTIVE = {"quick": False, "thorough": True}
@@ -117,6 +118,11 @@ def cases(tier, rng):
         ps = rng.sample(allp, 50) if quick else allp
         for x, y in ps:
             yield {"k": "py", "op": op, "args": [x, y]}
+    # 2b. the variadic arity of + - * / with three operands
+    for op in ARITH[:4]:
+        for _ in range(60 if quick else 1500):
+            pool_ = EXACT if rng.random() < 0.7 else UNIV
+            yield {"k": "core", "op": op, "args": [rng.choice(pool_), rng.choice(pool_), rng.choice(pool_)]}
     # 3. unary
     for op in UNARY:
         for x in UNIV:
